@@ -7,21 +7,46 @@ namespace KinModel.DocValidate
 
 /-- kinds whose `Validate` method must call `validateExtensions` unconditionally -/
 def extKinds : List Kind :=
-  [.root, .components, .info, .contact, .license, .paths, .pathItem, .operation, .parameter, .mediaType,
+  [.root, .components, .info, .contact, .license, .paths, .pathItem, .operation, .parameter, .header, .mediaType,
    .requestBody, .responses, .response, .schema, .example, .link, .callback, .securityScheme, .oauthFlows,
    .oauthFlow, .server, .serverVar, .tag, .externalDocs, .encoding, .discriminator, .xml]
 
-/-- what the theorems need of the table (decided on the regenerated table in Props/C04.lean) -/
+/-- kinds that carry `example` / `examples` next to a `schema` -/
+def exampleKinds : List Kind := [.parameter, .mediaType, .header]
+
+/-- what the theorems need of the table (decided on the regenerated table in Props/C04.lean): every method
+of `extKinds` calls `validateExtensions` unconditionally; defaults / examples are checked, and the example
+objects visited, exactly unless the option that names them is set; a reference wrapper validates its value;
+the only errors dropped are those of the headers of an encoding object; every component name is checked -/
 def TableOK (T : Table) : Bool :=
   extKinds.all (fun k => (rowsFor T.checks k "extensions").contains []) &&
-  (rowsFor T.checks .header "extensions" == []) &&
   (rowsFor T.checks .schema "default" == [["-schemaDefaultsValidationDisabled"]]) &&
   (rowsFor T.checks .schema "example" == [["-examplesValidationDisabled"]]) &&
-  (rowsFor T.checks .parameter "example" == [["-examplesValidationDisabled"]]) &&
-  (rowsFor T.checks .parameter "examples" == [["-examplesValidationDisabled"]]) &&
-  (rowsFor T.checks .mediaType "example" == [["-examplesValidationDisabled"]]) &&
-  (rowsFor T.checks .mediaType "examples" == [["-examplesValidationDisabled"]]) &&
+  exampleKinds.all (fun k =>
+    (rowsFor T.checks k "example" == [["-examplesValidationDisabled"]]) &&
+    (rowsFor T.checks k "examples" == [["-examplesValidationDisabled"]]) &&
+    (rowsFor T.edges k "examples" == [["-examplesValidationDisabled"]])) &&
+  (rowsFor T.edges .exampleRef "value").contains [] &&
+  (T.swallows == [(.encoding, "identifier:headers", []), (.encoding, "headers", [])]) &&
   componentPositions.all (fun p => (rowsFor T.checks .components ("identifier:" ++ p)).contains [])
+
+structure TableFacts (T : Table) : Prop where
+  ext : ∀ k ∈ extKinds, (rowsFor T.checks k "extensions").contains [] = true
+  sDefault : rowsFor T.checks .schema "default" = [["-schemaDefaultsValidationDisabled"]]
+  sExample : rowsFor T.checks .schema "example" = [["-examplesValidationDisabled"]]
+  ex : ∀ k ∈ exampleKinds,
+    rowsFor T.checks k "example" = [["-examplesValidationDisabled"]] ∧
+    rowsFor T.checks k "examples" = [["-examplesValidationDisabled"]] ∧
+    rowsFor T.edges k "examples" = [["-examplesValidationDisabled"]]
+  exRef : (rowsFor T.edges .exampleRef "value").contains [] = true
+  swallows : T.swallows = [(.encoding, "identifier:headers", []), (.encoding, "headers", [])]
+  ident : ∀ p ∈ componentPositions, (rowsFor T.checks .components ("identifier:" ++ p)).contains [] = true
+
+theorem tableFacts (T : Table) (hT : TableOK T = true) : TableFacts T := by
+  unfold TableOK at hT
+  simp only [Bool.and_eq_true, List.all_eq_true, beq_iff_eq] at hT
+  obtain ⟨⟨⟨⟨⟨⟨h1, h2⟩, h3⟩, h4⟩, h5⟩, h6⟩, h7⟩ := hT
+  exact ⟨h1, h2, h3, fun k hk => ⟨(h4 k hk).1.1, (h4 k hk).1.2, (h4 k hk).2⟩, h5, h6, h7⟩
 
 theorem anyHolds_of_nil (o : Opts) (gss : List (List String)) (h : gss.contains [] = true) :
     anyHolds o gss = true := by
@@ -48,9 +73,7 @@ namespace KinModel.DocValidate
 
 theorem checkExt_eq (T : Table) (o : Opts) (d : Doc) (hT : TableOK T = true) (hk : d.kind ∈ extKinds) :
     checkExt T o d = extKeysOK o d.attrs.exts := by
-  unfold TableOK at hT
-  simp only [Bool.and_eq_true, List.all_eq_true] at hT
-  have h := hT.1.1.1.1.1.1.1.1 d.kind hk
+  have h := (tableFacts T hT).ext d.kind hk
   unfold checkExt hasCheck
   rw [anyHolds_of_nil o _ h]; rfl
 
@@ -72,16 +95,16 @@ theorem all_congr_mem {α} (l : List α) (f g : α → Bool) (h : ∀ x ∈ l, f
 /-- kinds whose local checks are a plain cascade ending in `validateExtensions` -/
 def plainExtKinds : List Kind :=
   [.root, .info, .contact, .license, .pathItem, .operation, .requestBody, .responses, .response, .example, .link,
-   .callback, .oauthFlows, .serverVar, .tag, .externalDocs, .encoding, .discriminator, .xml,
+   .callback, .oauthFlows, .serverVar, .tag, .externalDocs, .discriminator, .xml,
    .securityScheme, .oauthFlow, .server]
 
-theorem localOK_plainExt (T : Table) (o : Opts) (k : Kind) (a : Attrs) (kids : List (String × Doc)) (hT : TableOK T = true)
-    (hk : k ∈ plainExtKinds) :
-    localOK T o (.node k a kids) = rulesOK o (.node k a kids) := by
+theorem localOK_plainExt (T : Table) (o : Opts) (k : Kind) (a : Attrs) (kids : List (String × Doc)) (vs : List Bool)
+    (hT : TableOK T = true) (hk : k ∈ plainExtKinds) :
+    localOK T o (.node k a kids) vs = rulesOK o (.node k a kids) := by
   have hx : k ∈ extKinds → checkExt T o (.node k a kids) = extKeysOK o a.exts :=
     fun h => checkExt_eq T o (.node k a kids) hT h
   simp only [plainExtKinds, List.mem_cons, List.not_mem_nil, or_false] at hk
-  rcases hk with rfl | rfl | rfl | rfl | rfl | rfl | rfl | rfl | rfl | rfl | rfl | rfl | rfl | rfl | rfl | rfl | rfl | rfl | rfl | rfl | rfl | rfl
+  rcases hk with rfl | rfl | rfl | rfl | rfl | rfl | rfl | rfl | rfl | rfl | rfl | rfl | rfl | rfl | rfl | rfl | rfl | rfl | rfl | rfl | rfl
   all_goals
     (have hx' := hx (by simp [extKinds])
      simp (disch := decide) only [localOK, rulesOK, violations, Doc.kind, Doc.attrs, List.all_append, all_when, extra_all, hx',
@@ -91,8 +114,9 @@ theorem localOK_plainExt (T : Table) (o : Opts) (k : Kind) (a : Attrs) (kids : L
 /-- kinds without local checks -/
 def trivialKinds : List Kind := [.content, .securityReqs, .securityReq, .servers, .tags]
 
-theorem localOK_trivial (T : Table) (o : Opts) (k : Kind) (a : Attrs) (kids : List (String × Doc)) (hk : k ∈ trivialKinds) :
-    localOK T o (.node k a kids) = rulesOK o (.node k a kids) := by
+theorem localOK_trivial (T : Table) (o : Opts) (k : Kind) (a : Attrs) (kids : List (String × Doc)) (vs : List Bool)
+    (hk : k ∈ trivialKinds) :
+    localOK T o (.node k a kids) vs = rulesOK o (.node k a kids) := by
   simp only [trivialKinds, List.mem_cons, List.not_mem_nil, or_false] at hk
   rcases hk with rfl | rfl | rfl | rfl | rfl <;> simp [localOK, rulesOK, violations, Doc.kind]
 
